@@ -1,7 +1,7 @@
 #!/bin/sh
 # tools/seed_eval.sh <ID> [tier] [other property ids...]: verify both seeds of /tmp/wt-<ID> and run the property's check against them
 id=$1; tier=${2:-quick}; [ $# -gt 0 ] && shift; [ $# -gt 0 ] && shift
-for x in a b; do
+for x in ${SEEDS:-a b}; do
   [ -f ${WTPREFIX:-/tmp/wt}-$id/_seed/patch_$x.diff ] || continue
   echo "== $id $x: $(head -c 300 ${WTPREFIX:-/tmp/wt}-$id/_seed/notes_$x.md 2>/dev/null | tr '\n' ' ' | cut -c1-200)"
   /verif/tools/seed_verify.sh ${WTPREFIX:-/tmp/wt}-$id $x
